@@ -22,6 +22,7 @@ struct FuzzyCfg
 {
     unsigned n;                 // order of the rule base
     unsigned opr;               // operator id
+    unsigned opr_style = 0;     // how it is installed (install_opr)
     R L, Lc;               // ranges of e and ec tables
     std::vector<MfSet> se, sec; // sets of e and ec
     std::vector<R> me, mec; // flattened parameter tables
@@ -111,7 +112,11 @@ static inline void flatten(std::vector<MfSet> const &sets, std::vector<R> &tab)
 static inline void gen_fuzzy(Tape &t, Ctx &cx, FuzzyCfg &f, bool zero_rules)
 {
     f.n = 2 + t.u8() % 6;
-    f.opr = t.u8() % 7;
+    {
+        uint8_t ob = t.u8();
+        f.opr = ob % 7;
+        f.opr_style = (ob / 7) % 4; // spare bits of the same byte
+    }
     f.L = R(1 + t.u8() % 4);
     f.Lc = R(1 + t.u8() % 4);
     gen_partition(t, f.n, f.L, f.se);
@@ -134,6 +139,26 @@ static inline void gen_fuzzy(Tape &t, Ctx &cx, FuzzyCfg &f, bool zero_rules)
     cx.hash.add(f.n | (f.opr << 8));
     for (R v : f.me) { cx.hash.addd(v); }
     for (R v : f.mec) { cx.hash.addd(v); }
+}
+
+// three ways of installing the relational operator in the public `opr` member: the setter, the pointer a_pid_fuzzy_opr() returns,
+// the fuzzy.h function named directly in this translation unit (an inline copy with its own address), or a function of the caller
+extern "C" {
+#include "a/fuzzy.h"
+}
+static a_real vp_user_cap(a_real a, a_real b) { return a < b ? a : b; }
+static a_real vp_user_cup_bounded(a_real a, a_real b) { a_real c = a + b; return c < 1 ? c : 1; }
+static inline void install_opr(a_pid_fuzzy *ctx, unsigned opr, unsigned style)
+{
+    typedef a_real (*F)(a_real, a_real);
+    static F const direct[7] = {a_fuzzy_equ, a_fuzzy_cap, a_fuzzy_cap_algebra, a_fuzzy_cap_bounded, a_fuzzy_cup, a_fuzzy_cup_algebra, a_fuzzy_cup_bounded};
+    switch (style % 4)
+    {
+    default: case 0: a_pid_fuzzy_set_opr(ctx, opr); break;
+    case 1: ctx->opr = a_pid_fuzzy_opr(opr); break;
+    case 2: ctx->opr = direct[opr % 7]; break;
+    case 3: ctx->opr = opr == A_PID_FUZZY_CAP ? vp_user_cap : opr == A_PID_FUZZY_CUP_BOUNDED ? vp_user_cup_bounded : direct[opr % 7]; break;
+    }
 }
 
 // the seven operators, from the formulas documented in pid_fuzzy.h
